@@ -3,6 +3,8 @@ import fnmatch, hashlib, json, os, sys, time
 
 VERIF = os.path.dirname(os.path.dirname(os.path.abspath(__file__)))
 KNOWN = os.path.join(VERIF, "known_findings.json")
+# scratch-copy runs (mutation testing with VERIF_REPO=...) must not touch the committed evidence
+OUT = VERIF if os.environ.get("VERIF_REPO", "/repo") == "/repo" else "/tmp/vp-mut-out"
 
 
 def load_known(prop):
@@ -50,8 +52,8 @@ class Verdict:
 
     def finish(self, coverage, assumptions=(), min_evaluations=1):
         known = load_known(self.prop)
-        os.makedirs(os.path.join(VERIF, "replays"), exist_ok=True)
-        os.makedirs(os.path.join(VERIF, "evidence"), exist_ok=True)
+        os.makedirs(os.path.join(OUT, "replays"), exist_ok=True)
+        os.makedirs(os.path.join(OUT, "evidence"), exist_ok=True)
         unknown = 0
         known_hits = {}
         lines = []
@@ -67,7 +69,7 @@ class Verdict:
                 continue
             unknown += 1
             h = hashlib.sha1(key.encode()).hexdigest()[:10]
-            path = os.path.join(VERIF, "replays", "%s-%s.json" % (self.prop, h))
+            path = os.path.join(OUT, "replays", "%s-%s.json" % (self.prop, h))
             with open(path, "w") as f:
                 json.dump({"property": self.prop, "key": key, "count": len(wits), "tier": self.tier,
                            "witness": wits[0], "more": [short(w.get("detail", ""), 300) for w in wits[1:4]]},
@@ -105,7 +107,7 @@ class Verdict:
         ev = {"property_id": self.prop, "tier": self.tier, "seed": self.seed, "level": self.level,
               "coverage": cov, "assumptions": list(assumptions) + self.assumptions,
               "wall_s": round(time.time() - self.t0, 2), "violations": unknown}
-        with open(os.path.join(VERIF, "evidence", self.prop + ".json"), "w") as f:
+        with open(os.path.join(OUT, "evidence", self.prop + ".json"), "w") as f:
             json.dump(ev, f, indent=1, sort_keys=True)
         print("%s %s tier=%s seed=%d evaluations=%d distinct_nontrivial=%d known=%d violations=%d wall=%.1fs" %
               (self.prop, {0: "HELD", 1: "VIOLATED", 2: "INCONCLUSIVE"}[status], self.tier, self.seed,
